@@ -5,7 +5,7 @@ from common import ABC
 
 NAME = "Nft"
 
-_c = dict(ITEMS=2, BITS=2, MinTempTtl=16, MaxTtl=6000000, Now0=10, BUG="none")
+_c = dict(ITEMS=2, BITS=2, MinTempTtl=16, MaxTtl=6000000, Now0=10, BUG="none", PastDU=False)
 AB = {"a", "b"}
 
 # ownership configurations: the owner acts with its own authorization; mints, transfers, burns
@@ -19,7 +19,7 @@ _own_c = dict(_own, FLAVOUR="consecutive", OpSet={"batch", "transfer", "burn"}, 
 _auth = dict(_c, Acct=ABC, AuthMode="all", RcSet={"c"}, ToSet={"c"}, FromSet=AB, PreMode="two",
              OpSet={"approve", "approve_for_all", "transfer_from", "burn_from", "transfer", "burn"},
              MaxId=2, XIds=set(), NS={1}, TIds={0}, DUs={0, 1}, DTs={0, 1})
-_auth_t = dict(DUs={-1, 0, 1, 5999999, 6000000}, ToSet={"b", "c"})
+_auth_t = dict(DUs={0, 1, 5999999, 6000000}, PastDU=True, ToSet={"b", "c"})
 _inv = ["NoViolation", "Refines"]
 
 
